@@ -871,32 +871,42 @@ def proxy_keys(ctx: Ctx) -> None:
     CMAPS = cm_sites[0].name
     PAIRS = {a.id for a in cm_sites[0].value.args if isinstance(a, ast.Name) and any(d_.value is not None and any(isinstance(c_, ast.Call) and (attr_chain(c_.func) or "").endswith("partition") for c_ in ast.walk(d_.value)) for d_ in mfl.rdefs(a.id, cm_sites[0].node))}
     ctx.need(PAIRS, "argument-pair list not found in make_blockwise_back_key_function")
-    # uses: (X[c] for c in <one coordinate map>)
-    uses = [
-        n
-        for n in bk.own_nodes()
-        if isinstance(n, (ast.GeneratorExp, ast.ListComp))
-        and isinstance(n.elt, ast.Subscript)
-        and isinstance(n.generators[0].iter, ast.Name)
-        and isinstance(n.generators[0].target, ast.Name)
-        and isinstance(n.elt.slice, ast.Name)
-        and n.elt.slice.id == n.generators[0].target.id
-    ]
-    ok = bool(uses)
-    why = "coordinate-map use not found"
-    for u_ in uses:
-        cm = u_.generators[0].iter
-        at = kcfg.node_of(u_)
-        for s_ in kfl.rdefs(cm.id, at):
-            if s_.kind == "for" and isinstance(s_.value, ast.Call) and unparse(s_.value.func) == "zip" and any(isinstance(a, ast.Name) and a.id == CMAPS for a in s_.value.args) and any(isinstance(a, ast.Name) and a.id in PAIRS for a in s_.value.args):
-                continue
-            if s_.kind in ("assign", "unpack") and s_.value is not None and isinstance(s_.value, ast.Subscript) and isinstance(s_.value.value, ast.Name) and s_.value.value.id == CMAPS and not isinstance(s_.value.slice, ast.Constant):
-                idx = s_.value.slice
-                if isinstance(idx, ast.Name) and any(x.kind == "for" and x.index == (0,) for x in kfl.rdefs(idx.id, s_.node)):
-                    continue  # coord_maps[i] with i from enumerate
-            ok = False
-            why = f"`{cm.id}` comes from `{unparse(s_.value, 40) if s_.value is not None else s_.kind}`: plans looked up by array name collapse repeated arguments onto one plan"
-    ctx.ob(bk, uses[0] if uses else None, ok, "blockwise key function: each argument's coordinate map is taken positionally (zip with the argument list)" + ("" if ok else f" — {why}"), sel="names:positional-plan")
+    # Each argument's coordinate map must reach its use *positionally*: bound by a loop over
+    # zip(<coordinate maps>, …, <argument pairs>) or by coord_maps[i] with i from enumerate.
+    # Evidence of the opposite — a subscript of the coordinate maps (or of anything built from
+    # them) by an array name — is the violation; where the map is then used (here or in a
+    # private helper it is handed to) does not matter.
+    zips = []
+    bad_lookup = None
+    for n_ in list(bk.own_nodes()) + list(mk.own_nodes()):
+        if isinstance(n_, (ast.For, ast.comprehension)) and isinstance(n_.iter, ast.Call) and unparse(n_.iter.func) == "zip" and any(isinstance(a, ast.Name) and a.id == CMAPS for a in n_.iter.args):
+            if any(isinstance(a, ast.Name) and a.id in PAIRS for a in n_.iter.args):
+                zips.append(n_)
+            else:
+                # zip(names, coord_maps) → a name-keyed table in the making
+                bad_lookup = n_.iter
+        if isinstance(n_, ast.Call) and isinstance(n_.func, ast.Name) and n_.func.id == "dict" and n_.args and any(isinstance(x, ast.Name) and x.id == CMAPS for x in ast.walk(n_.args[0])):
+            bad_lookup = n_
+        if isinstance(n_, ast.Subscript) and isinstance(n_.value, ast.Name) and n_.value.id == CMAPS and not isinstance(n_.slice, (ast.Constant, ast.Slice)):
+            idx = n_.slice
+            enum_ok = isinstance(idx, ast.Name) and kcfg.has(n_) and any(x.kind == "for" and x.index == (0,) for x in kfl.rdefs(idx.id, kcfg.node_of(n_)))
+            if not enum_ok:
+                bad_lookup = n_
+    # a dictionary comprehension over such a zip is a table keyed by one of its elements
+    for dc in [x for x in list(bk.own_nodes()) + list(mk.own_nodes()) if isinstance(x, ast.DictComp)]:
+        for g in dc.generators:
+            if isinstance(g.iter, ast.Call) and unparse(g.iter.func) == "zip" and any(isinstance(a, ast.Name) and a.id == CMAPS for a in g.iter.args):
+                bad_lookup = dc
+                zips = [z for z in zips if z is not g]
+    in_bk = [z for z in zips if any(z is x for x in bk.own_nodes())]
+    if bad_lookup is not None and not in_bk:
+        in_bk = [bad_lookup]
+    uses = in_bk
+    ok = bool(in_bk) and bad_lookup is None
+    why = "coordinate-map use not found" if not in_bk else f"`{unparse(bad_lookup, 40)}`: plans looked up by array name collapse repeated arguments onto one plan"
+    if not in_bk and bad_lookup is None:
+        ctx.need(False, "blockwise key function: neither a positional zip over the coordinate maps nor a keyed lookup found (restructured; not followed)")
+    ctx.ob(bk, bad_lookup if bad_lookup is not None else (uses[0] if uses else None), ok, "blockwise key function: each argument's coordinate map is taken positionally (zip with the argument list)" + ("" if ok else f" — {why}"), sel="names:positional-plan")
     fn = repo.get(f"{A.PBW}.make_blockwise_back_key_function_flattened.blockwise_fn_flattened")
     ck = [c for c in ast.walk(fn.node) if isinstance(c, ast.Call) and CHUNKKEY in repo.callee_quals(c, fn)]
     ok = bool(ck) and unparse(ck[0].args[0]).endswith("[0]") and unparse(ck[0].args[1]).endswith("[1:]")
